@@ -609,6 +609,69 @@ func yamlCause(w string) string {
 	return ""
 }
 
+// yamlPredicted: what the recorded finding of w's class says comes back for w - computed here from
+// the finding's description (strconv), independently of the Lean model: kind "retyped" (+ the
+// value), "fileBroken" (the reader refuses the file, every option gets its default), "loadError"
+// (config.Load fails), or "" (w is in no recorded class).
+func yamlPredicted(w string) (cause, kind, value string) {
+	cause = yamlCause(w)
+	p := w
+	if !strings.HasPrefix(w, "_") {
+		p = strings.ReplaceAll(w, "_", "")
+	}
+	ff := func(f float64) string { return strconv.FormatFloat(f, 'f', -1, 64) }
+	switch cause {
+	case "carriage-return-rewritten":
+		v := strings.ReplaceAll(w, "\r", "\n")
+		k := len(w) - len(strings.TrimRight(w, "\r"))
+		if k >= 2 || k == len(w) {
+			v = v[:len(v)-1]
+		}
+		return cause, "retyped", v
+	case "lone-newline-lost":
+		return cause, "retyped", ""
+	case "file-unparsable-silently-ignored", "control-character-file-unparsable-silently-ignored":
+		return cause, "fileBroken", ""
+	case "date-like-string-refused":
+		return cause, "loadError", ""
+	case "numeric-looking-string-retyped":
+		if infNanRe.MatchString(w) {
+			switch {
+			case strings.HasPrefix(w, "-"):
+				return cause, "retyped", "-Inf"
+			case strings.Contains(strings.ToLower(w), "nan"):
+				return cause, "retyped", "NaN"
+			}
+			return cause, "retyped", "+Inf"
+		}
+		if f, err := strconv.ParseFloat(p, 64); err == nil {
+			return cause, "retyped", ff(f)
+		}
+	case "radix-or-leading-zero-string-retyped":
+		switch {
+		case strings.HasPrefix(p, "0o") || strings.HasPrefix(p, "0b"):
+			base := 8
+			if p[1] == 'b' {
+				base = 2
+			}
+			if n, err := strconv.ParseInt(p[2:], base, 64); err == nil {
+				return cause, "retyped", strconv.FormatInt(n, 10)
+			}
+		case leadZeroRe.MatchString(p):
+			if f, err := strconv.ParseFloat(p, 64); err == nil {
+				return cause, "retyped", ff(f)
+			}
+		default:
+			if n, err := strconv.ParseInt(p, 0, 64); err == nil {
+				return cause, "retyped", strconv.FormatInt(n, 10)
+			}
+		}
+	}
+	return cause, "", ""
+}
+
+var decodeErrKeyRe = regexp.MustCompile(`'([A-Za-z0-9_.]+)' expected type`)
+
 var (
 	hardControlRe = regexp.MustCompile("[\\x00-\\x08\\x0b\\x0c\\x0e-\\x1f\\x7f\u0080-\u0084\u0086-\u009f\ufffe\uffff]")
 	radixRe       = regexp.MustCompile(`^([-+]?0X[0-9a-fA-F]+|[-+]?0O[0-7]+|[-+]?0B[01]+|0o[-+][0-7]+|0b[-+][01]+)$`)
@@ -703,10 +766,22 @@ func (r *runner) doSave(o hx.Op) {
 		return
 	}
 	if err != nil {
+		// known only if the decoder complains about time.Time under exactly the keys of options whose
+		// saved value the date-like finding predicts to be refused
 		sig := "C18/saveload/load-error"
+		predicted := map[string]bool{}
 		for i, f := range r.fs {
-			if isOption(f) && f.Kind == "string" && yamlCause(want[i]) == "date-like-string-refused" && strings.Contains(err.Error(), "time.Time") {
-				sig = "C18/saveload/date-like-string-refused"
+			if _, kind, _ := yamlPredicted(want[i]); isOption(f) && f.Kind == "string" && kind == "loadError" {
+				predicted[f.YAML] = true
+			}
+		}
+		keys := decodeErrKeyRe.FindAllStringSubmatch(err.Error(), -1)
+		if len(keys) > 0 && strings.Count(err.Error(), "time.Time") == len(keys) {
+			sig = "C18/saveload/date-like-string-refused"
+			for _, k := range keys {
+				if !predicted[strings.ToLower(k[1])] {
+					sig = "C18/saveload/load-error"
+				}
 			}
 		}
 		r.c.Report(sig, "a configuration written by SaveAsYaml does not load: "+err.Error())
@@ -723,28 +798,34 @@ func (r *runner) doSave(o hx.Op) {
 	pv := viper.New()
 	pv.SetConfigFile(cfg.ConfigPath())
 	parseErr := pv.ReadInConfig()
-	// the known causes of an unparsable file: a string option that is "?" / starts with "? ", or
-	// holds a control character
-	breaker := ""
+	// Classification by the observed OUTCOME against the outcome the recorded finding predicts for
+	// the saved value (yamlPredicted): a known signature only when they are equal; a value of a
+	// damaged class that comes back as something else is `saveload/other/<option>`.
+	breaker := "" // some string option's class predicts that the reader refuses the whole file
 	for i, f := range r.fs {
-		if c := yamlCause(want[i]); isOption(f) && f.Kind == "string" && strings.HasSuffix(c, "file-unparsable-silently-ignored") && breaker == "" {
+		if c, kind, _ := yamlPredicted(want[i]); isOption(f) && f.Kind == "string" && kind == "fileBroken" && breaker == "" {
 			breaker = c
 		}
 	}
 	for i, f := range r.fs {
 		if isOption(f) && got[i] != want[i] && !histDiff[i] {
 			w, g := want[i], got[i]
-			cause := ""
+			cause, kind, pv := "", "", ""
 			if f.Kind == "string" {
-				cause = yamlCause(w)
+				cause, kind, pv = yamlPredicted(w)
 			}
 			switch {
 			case parseErr != nil && breaker == "":
 				r.c.Report("C18/saveload/file-unparsable", fmt.Sprintf("SaveAsYaml left a file viper cannot parse (%v) although no option holds a value known to be written wrongly; saved %s=%q, loaded %q", parseErr, f.Go, w, g))
-			case parseErr != nil:
+			case parseErr != nil && (g == r.prist[i] || g == before[i]):
+				// predicted: the file is refused, Load discards the error, every option gets its default
 				r.c.Report("C18/saveload/"+breaker, fmt.Sprintf("SaveAsYaml wrote a file viper cannot parse (%v); Load ignores the error and silently returns the defaults (saved %s=%q, loaded %q)", parseErr, f.Go, w, g))
-			case cause != "" && !strings.HasSuffix(cause, "silently-ignored") && cause != "date-like-string-refused":
-				r.c.Report("C18/saveload/"+cause, fmt.Sprintf("SaveAsYaml writes the string bare, Load reads something else: saved %s=%q, loaded %q", f.Go, w, g))
+			case parseErr != nil:
+				r.c.Report("C18/saveload/other/"+f.Go, fmt.Sprintf("the file is unparsable (%v) and the option is neither what was saved nor its default: saved %s=%q, loaded %q, default %q", parseErr, f.Go, w, g, r.prist[i]))
+			case kind == "retyped" && g == pv:
+				r.c.Report("C18/saveload/"+cause, fmt.Sprintf("SaveAsYaml writes the string bare, Load reads something else: saved %s=%q, loaded %q (as the finding predicts)", f.Go, w, g))
+			case cause != "":
+				r.c.Report("C18/saveload/other/"+f.Go, fmt.Sprintf("saved %s=%q (class %s, predicted outcome %s %q), loaded %q", f.Go, w, cause, kind, pv, g))
 			case g == r.prist[i] || g == before[i]:
 				r.c.Report("C18/saveload/lost/"+f.Go, fmt.Sprintf("saved %s=%q, loaded %q", f.Go, w, g))
 			default:
@@ -755,6 +836,76 @@ func (r *runner) doSave(o hx.Op) {
 	r.checkDefaultsUntouched(before)
 	r.c.Hit("save")
 	r.c.Emit("ok cfg=%s", r.cfgList(got))
+}
+
+// doSaveProbe: SaveAsYaml -> Load for string values OUTSIDE the domain the model of the YAML pair
+// was validated on (Yaml.roundTrip answers `unmodelled`: TAB at the ends, NEL/LS/PS/BOM, CR and LF
+// together, ...). No theorem and no finding covers them; the monitor only RECORDS what happens
+// (histogram) and reports a crash. Not part of the load history.
+func (r *runner) doSaveProbe(o hx.Op) {
+	set, ok := parsePairs(o.Str("set"))
+	if !ok {
+		r.c.Emit("bad-op")
+		return
+	}
+	saved := DeepCopy(config.DefaultConfig)
+	defer restoreFrom(saved)
+	RestoreDefaults()
+	cfg := DeepCopy(pristine)
+	for _, p := range set {
+		v, ok := Leaf(&cfg, p.K)
+		if !ok || v.Kind() != reflect.String {
+			continue
+		}
+		v.SetString(p.V)
+	}
+	home := r.home()
+	defer os.RemoveAll(home)
+	cfg.RootDir = home
+	want := Snapshot(&cfg, r.fs)
+	outcome := func() (out string) {
+		defer func() {
+			if p := recover(); p != nil {
+				r.c.Report("C18/panic/saveprobe", fmt.Sprintf("SaveAsYaml/Load panics on a string option value: %v", p))
+				out = "panic"
+			}
+		}()
+		if err := cfg.SaveAsYaml(); err != nil {
+			return "save-error"
+		}
+		pv := viper.New()
+		pv.SetConfigFile(cfg.ConfigPath())
+		parseErr := pv.ReadInConfig()
+		back, err := RealLoad(home, nil)
+		switch {
+		case err != nil && strings.HasPrefix(err.Error(), "panic:"):
+			r.c.Report("C18/panic/saveprobe", err.Error())
+			return "panic"
+		case err != nil:
+			return "load-error"
+		case parseErr != nil:
+			return "file-unparsable"
+		}
+		got := Snapshot(&back, r.fs)
+		same, others := true, false
+		for i, f := range r.fs {
+			if isOption(f) && got[i] != want[i] {
+				same = false
+				if _, probed := lookup(set, f.Go, false); !probed {
+					others = true
+				}
+			}
+		}
+		switch {
+		case same:
+			return "same"
+		case others:
+			return "other-options-damaged"
+		}
+		return "differs"
+	}()
+	r.c.Hit("saveprobe:" + outcome)
+	r.c.Emit("probed")
 }
 
 func restoreFrom(src config.Config) {
@@ -882,27 +1033,42 @@ func (r *runner) loadBack(s *gslot, again bool) string {
 		}
 		return "err:" + cl
 	}
+	// Classification by the observed DAMAGE, field by field. A known signature is given only when
+	// the field differs in exactly the way the recorded finding explains; every field is judged on
+	// its own, so one explained difference cannot hide another.
+	_, boff := back.GenesisDAStartTime.Zone()
+	cut := (s.off / 60) * 60 // the zone offset RFC 3339 can print (Go: truncation towards zero)
+	dropped := s.off - cut   // seconds the format drops: the wall clock is kept, so the instant moves by them
+	shifted := g.GenesisDAStartTime.Add(time.Duration(dropped) * time.Second)
+	timeSame := back.GenesisDAStartTime.Equal(g.GenesisDAStartTime) && boff == s.off
+	timeShiftExplained := dropped != 0 && back.GenesisDAStartTime.Equal(shifted) && boff == cut
 	if cond != "" {
-		if cond == "da_start_time" && s.off%60 != 0 {
-			r.c.Report("C18/genesis/invalid-loaded/da_start_time-after-zone-offset-seconds-dropped", fmt.Sprintf("the zero time in a zone whose offset has seconds (%ds) is written with the offset cut to minutes: the file denotes another instant and LoadGenesis accepts it", s.off))
+		// the only explained way for an invalid genesis to load: its zero time moved off zero by the dropped seconds
+		if cond == "da_start_time" && timeShiftExplained && !back.GenesisDAStartTime.IsZero() {
+			r.c.Report("C18/genesis/invalid-loaded/da_start_time-after-zone-offset-seconds-dropped", fmt.Sprintf("the zero time in a zone whose offset has seconds (%ds) is written with the offset cut to minutes: the file denotes the instant %v and LoadGenesis accepts it", s.off, back.GenesisDAStartTime.UTC()))
 		} else {
 			r.c.Report("C18/genesis/invalid-loaded/"+cond, fmt.Sprintf("LoadGenesis accepts a genesis file with invalid %s", cond))
 		}
 	}
-	_, boff := back.GenesisDAStartTime.Zone()
-	switch {
-	case back.ChainID != g.ChainID && !utf8.ValidString(g.ChainID):
-		r.c.Report("C18/genesis/roundtrip/chain-id-invalid-utf8-replaced", fmt.Sprintf("a chain id that is not valid UTF-8 comes back with U+FFFD in place of the offending bytes: %q -> %q", g.ChainID, back.ChainID))
-	case back.ChainID != g.ChainID:
-		r.c.Report("C18/genesis/roundtrip/chain_id", fmt.Sprintf("%q -> %q", g.ChainID, back.ChainID))
-	case back.InitialHeight != g.InitialHeight:
-		r.c.Report("C18/genesis/roundtrip/initial_height", fmt.Sprintf("%d -> %d", g.InitialHeight, back.InitialHeight))
-	case (!back.GenesisDAStartTime.Equal(g.GenesisDAStartTime) || boff != s.off) && s.off%60 != 0:
-		r.c.Report("C18/genesis/roundtrip/zone-offset-seconds-dropped", fmt.Sprintf("a time in a zone whose offset has seconds (%ds) is written with the offset cut to minutes and the wall clock kept: the instant shifts: %v -> %v", s.off, g.GenesisDAStartTime, back.GenesisDAStartTime))
-	case !back.GenesisDAStartTime.Equal(g.GenesisDAStartTime) || boff != s.off:
-		r.c.Report("C18/genesis/roundtrip/da_start_time", fmt.Sprintf("%v -> %v", g.GenesisDAStartTime, back.GenesisDAStartTime))
-	case !bytes.Equal(back.ProposerAddress, g.ProposerAddress) || (back.ProposerAddress == nil) != (g.ProposerAddress == nil):
-		r.c.Report("C18/genesis/roundtrip/proposer_address", fmt.Sprintf("%x -> %x", g.ProposerAddress, back.ProposerAddress))
+	if back.ChainID != g.ChainID {
+		if !utf8.ValidString(g.ChainID) && back.ChainID == replaceInvalidUTF8(g.ChainID) {
+			r.c.Report("C18/genesis/roundtrip/chain-id-invalid-utf8-replaced", fmt.Sprintf("a chain id that is not valid UTF-8 comes back with U+FFFD in place of every offending byte: %q -> %q", g.ChainID, back.ChainID))
+		} else {
+			r.c.Report("C18/genesis/roundtrip/other-field-differs/chain_id", fmt.Sprintf("%q -> %q (not the U+FFFD replacement %q)", g.ChainID, back.ChainID, replaceInvalidUTF8(g.ChainID)))
+		}
+	}
+	if back.InitialHeight != g.InitialHeight {
+		r.c.Report("C18/genesis/roundtrip/other-field-differs/initial_height", fmt.Sprintf("%d -> %d", g.InitialHeight, back.InitialHeight))
+	}
+	if !timeSame {
+		if timeShiftExplained {
+			r.c.Report("C18/genesis/roundtrip/zone-offset-seconds-dropped", fmt.Sprintf("a time in a zone whose offset has seconds (%ds) is written with the offset cut to minutes and the wall clock kept: the instant shifts by exactly the %d dropped seconds: %v -> %v", s.off, dropped, g.GenesisDAStartTime, back.GenesisDAStartTime))
+		} else {
+			r.c.Report("C18/genesis/roundtrip/other-field-differs/da_start_time", fmt.Sprintf("%v (offset %ds) -> %v (offset %ds); the dropped zone seconds (%d) would explain %v (offset %ds)", g.GenesisDAStartTime, s.off, back.GenesisDAStartTime, boff, dropped, shifted, cut))
+		}
+	}
+	if !bytes.Equal(back.ProposerAddress, g.ProposerAddress) || (back.ProposerAddress == nil) != (g.ProposerAddress == nil) {
+		r.c.Report("C18/genesis/roundtrip/other-field-differs/proposer_address", fmt.Sprintf("%x (nil=%v) -> %x (nil=%v)", g.ProposerAddress, g.ProposerAddress == nil, back.ProposerAddress, back.ProposerAddress == nil))
 	}
 	bt := back.GenesisDAStartTime
 	pas := "nil"
@@ -1064,6 +1230,23 @@ func (r *runner) loadRaw(path string, raw []byte) string {
 	return fmt.Sprintf("ok cid=%s ih=%d t=%d.%d offs=%d pa=%s", hexS(back.ChainID), back.InitialHeight, bt.Unix(), bt.Nanosecond(), boff, pas)
 }
 
+// replaceInvalidUTF8: every byte that is not part of a valid UTF-8 sequence becomes U+FFFD (one per
+// byte - what encoding/json writes; strings.ToValidUTF8 would merge runs)
+func replaceInvalidUTF8(s string) string {
+	var b strings.Builder
+	for i := 0; i < len(s); {
+		c, size := utf8.DecodeRuneInString(s[i:])
+		if c == utf8.RuneError && size == 1 {
+			b.WriteString("\uFFFD")
+			i++
+			continue
+		}
+		b.WriteString(s[i : i+size])
+		i += size
+	}
+	return b.String()
+}
+
 func truncate(s string, n int) string {
 	if len(s) > n {
 		return s[:n] + "…"
@@ -1155,6 +1338,8 @@ func Run(c *hx.Ctx) {
 				r.doLoadX(o)
 			case "flagreach":
 				r.doFlagReach(o)
+			case "saveprobe":
+				r.doSaveProbe(o)
 			case "save", "savex": // savex: old name for saves of values the YAML pair does not preserve
 				r.doSave(o)
 			case "genesis":
